@@ -175,7 +175,14 @@ void exec_op(World& w, const Op& op) {
   JitAllocator& a = *w.alloc;
   bool inited = w.model.cfg.constructed;
   switch (op.kind) {
-    case kAlloc: do_alloc(w, size_t(op.a[0]), (op.a[1] & 3) == 0 && op.a[0] < 100000); break;
+    case kAlloc: {
+      // (one request in a hundred is absurdly large - within a granule of SIZE_MAX, where rounding up wraps to zero, or beyond
+      // what any block can hold: all refused)
+      static const uint64_t huge[] = {~uint64_t(0), ~uint64_t(0) - 1, ~uint64_t(0) - 63, ~uint64_t(0) - 255, uint64_t(1) << 63, (uint64_t(1) << 32) + 64, uint64_t(0xFFFFFFFFu)};
+      if ((op.a[1] % 101) == 7) { size_t hs = size_t(huge[size_t(op.a[2]) % 7] - (op.a[2] % 2 ? 0 : uint64_t(op.a[2]) % w.model.cfg.granularity)); if (hs > 0x7fffffffu) { sim::count("c09.probe.absurd_request_size"); do_alloc(w, hs, false); check_stats(w, "after a refused request"); break; } }
+      do_alloc(w, size_t(op.a[0]), (op.a[1] & 3) == 0 && op.a[0] < 100000);
+      break;
+    }
     case kRelease: if (!w.held.empty()) do_release(w, held_index(w, op.a[0])); break;
     case kReleaseAll: while (!w.held.empty()) do_release(w, size_t(op.a[0]) % w.held.size()); break;
     case kReallocSame: {
